@@ -17,22 +17,13 @@ def _error_transitions(rep):
     import table as T, l0 as L
     dump, res = T.spec_table()
     rep.add_tlc("MC_Table", res, "expected-token lists derived from the grammar")
-    try:
-        pairs, bad0 = T.bisimulate(dump, T.extract_python())
-    except T.NotExtractable:
-        return
-    for b in bad0:
-        if b[0] in ("expected list of state", "error-stay state"):
-            rep.violation({"kind": "error-table"}, {"engine": "bisimulation", "what": "parser.py: " + b[0] + " differs from the table derived from the grammar", "detail": list(b)})
-    if any(b[0] not in ("expected list of state", "error-stay state") for b in bad0):
-        return          # transitions differ (reported by C02); without a complete state map the drive is not possible
-    cases, bad, cov = L.drive_transitions(dump, pairs)
+    pairs, bad, cases, cov = L.learn_and_compare(dump)
     n_err = sum(1 for k, e in enumerate(dump["states"]) if not e["isEnd"] for st in dump["steps"][k] if st["hit"] == 0)
     rep.traces += n_err
     rep.extra["state_kind_error_pairs"] = n_err
     for b in bad:
-        if "expected an unexpected-token error" in b["what"] or "exception" in b["what"]:
-            rep.violation({"kind": "error-transition"}, {"engine": "drive", "what": "unexpected-token handling differs from the specification", "detail": b})
+        if "expected an unexpected-token error" in b.get("what", "") or "exception" in b.get("what", ""):
+            rep.violation({"kind": "error-transition"}, {"engine": "learned-table", "what": "unexpected-token handling differs from the specification", "detail": b})
 
 
 def c14(tier, rep):
